@@ -311,6 +311,7 @@ Proof.
     { destruct H as [H|H]; [|right; apply NC_data_received; assumption].
       destruct (sent (fst (data_received s d))) eqn:S1; [|left; reflexivity].
       right. apply sent_data_received; [assumption|congruence]. }
+    pose proof (fun N => proj1 (NC_data_received s d I N)) as NCd.
     destruct (data_received s d) as [s1 a1]. cbn [fst snd] in *.
     specialize (IH s1 I1 H1).
     pose proof (NC_feed r s1 I1) as NF.
@@ -320,8 +321,7 @@ Proof.
     + right. exists i, k.
       assert (S0 : sent s = false).
       { destruct H as [H|H]; [exact H|]. exfalso.
-        destruct (NC_data_received s d I H) as [N1 _]. cbn in N1.
-        specialize (NF N1). rewrite (amw_ids_nil _ NF) in K1. discriminate. }
+        specialize (NF (NCd H)). rewrite (amw_ids_nil _ NF) in K1. discriminate. }
       assert (Wa : wc a1 = [] /\ sent s1 = sent s).
       { destruct W1 as [W1|[_ [W1 _]]]; [exact W1|congruence]. }
       destruct Wa as [Wa Ws].
